@@ -12,6 +12,7 @@
 package main
 
 import (
+	"bytes"
 	"crypto/sha256"
 	"encoding/base64"
 	"encoding/hex"
@@ -710,6 +711,9 @@ func vfGenClear(r *common.Rng) string {
 		}
 		return string(b)
 	case 2:
+		if r.Intn(3) == 0 {
+			return strings.Repeat("ab", 150) // longer than 256 bytes
+		}
 		return strings.Repeat("a", 71)
 	case 3:
 		return strings.Repeat("a", 72)
@@ -931,7 +935,16 @@ func vfGenDescription(t *common.Trace, r *common.Rng) vfGenDesc {
 
 func vfNearMiss(r *common.Rng, c []byte) []byte {
 	b := append([]byte(nil), c...)
-	switch r.Intn(6) {
+	switch r.Intn(9) {
+	case 6: // a length that differs by a multiple of 256, padded with NULs (what a zero-filled comparison buffer holds)
+		return append(b, make([]byte, 256*r.Range(1, 3))...)
+	case 7: // ... or with something else
+		return append(b, bytes.Repeat([]byte{'x'}, 256)...)
+	case 8: // a prefix that is shorter by a multiple of 256 (long configured passwords)
+		if len(b) > 256 {
+			return b[:len(b)-256]
+		}
+		return append(b, make([]byte, 255)...)
 	case 0:
 		return append(b, 'x')
 	case 1:
